@@ -25,11 +25,11 @@ def plan(tier, seed):
     for res_lo in range(1, 33, 4):
         sh.append({"kind": "input", "rlo": res_lo, "rhi": res_lo + 4, "random": 60 if tier == "quick" else 2000})
     for w in (8, 16, 24):
-        sh.append({"kind": "filters", "width": w, "n": 400 if tier == "quick" else 6000})
+        sh.append({"kind": "filters", "width": w, "n": 1500 if tier == "quick" else 6000})
     sh.append({"kind": "schemes"})
     nd = 8 if tier == "quick" else 32
     for p in range(nd):
-        sh.append({"kind": "discovery", "part": p, "n": (200 if tier == "quick" else 3200) // nd})
+        sh.append({"kind": "discovery", "part": p, "n": (640 if tier == "quick" else 3200) // nd})
     return sh
 
 
